@@ -302,6 +302,12 @@ class Prover:
                         t = _ty_range(pl.get('ty'))
                         if r is not None and t is not None:
                             r = (max(r[0], t[0]), min(r[1], t[1])) if not rv['op'].endswith('WithOverflow') else r
+                elif rv['k'] == 'agg' and rv.get('agg') == 'tuple' and len(proj) == 1 and isinstance(proj[0], dict) and 'f' in proj[0] and proj[0]['f'] < len(rv['ops']):
+                    r = self.range_of(rv['ops'][proj[0]['f']], depth + 1)
+                elif rv['k'] == 'use' and proj and rv['op'].get('k') in ('copy', 'move'):
+                    # a copy of a whole tuple / struct: look through to the same field of the source
+                    src = rv['op']['place']
+                    r = self._place_range({'l': src['l'], 'p': list(src['p']) + list(proj), 'ty': pl.get('ty')}, depth + 1)
                 elif rv['k'] == 'len':
                     n = _array_len(rv['place'].get('ty'))
                     r = (n, n) if n is not None else (0, SLICE_MAX)
@@ -412,6 +418,18 @@ def prove_site(body, block, term):
             n = pr.len_range(term['args'][0], block)
             if k is not None and k[1] <= n[0]:
                 return 'split point <= %d <= length >= %d' % (k[1], n[0])
+        if last in ('index', 'index_mut') and len(term['args']) == 2 and term['args'][1].get('k') in ('copy', 'move') and not term['args'][1]['place']['p']:
+            # slicing with a range whose bounds stay inside the (fixed or guarded) length
+            ds = _defs(body, term['args'][1]['place']['l'])
+            if len(ds) == 1 and ds[0][0] == 'assign' and ds[0][1]['k'] == 'agg' and ds[0][1].get('agg') == 'adt' and ds[0][1]['adt'].startswith('std::ops::Range') \
+                    and not ds[0][1]['adt'].endswith('Inclusive'):
+                rv = ds[0][1]
+                n = pr.len_range(term['args'][0], block)
+                vals = dict(zip(rv['fields'], rv['ops']))
+                lo = pr.range_of(vals['start'], 0, block) if 'start' in vals else (0, 0)
+                hi = pr.range_of(vals['end'], 0, block) if 'end' in vals else (n[0], n[0])
+                if lo is not None and hi is not None and hi[1] <= n[0] and lo[1] <= (hi[0] if 'end' in vals else n[0]):
+                    return 'range %s..%s within a length >= %d' % (lo[1], hi[1], n[0])
         if last == 'pow' and len(term['args']) == 2:
             base, e = pr.range_of(term['args'][0], 0, block), pr.range_of(term['args'][1], 0, block)
             ty = (term['dest'] or {}).get('ty')
